@@ -29,6 +29,43 @@ namespace vi = vf::it;
 
 constexpr int MOVED = -99;
 
+// ------------------------------------------------------------------ predicate / comparator result types
+// C06_TRUTHY=1 builds drive every predicate-taking algorithm with results that are boolean-testable but are
+// neither bool nor 0/1: unary predicates, equivalences and El's operator== return int masks (4, -1, 2048, -8
+// for "true"), comparators and El's operator< return a class with an implicit conversion to bool.
+#ifndef C06_TRUTHY
+    #define C06_TRUTHY 0
+#endif
+struct Flag {
+    int v;
+    operator bool() const { return v != 0; }
+};
+inline int truthy(bool b, int salt)
+{
+    static int const t[4] = {4, -1, 2048, -8};
+    return b ? t[salt & 3] : 0;
+}
+template <typename R>
+inline R mk_result(bool b, int salt)
+{
+    if constexpr (std::is_same_v<R, bool>) {
+        return b;
+    } else if constexpr (std::is_same_v<R, int>) {
+        return truthy(b, salt);
+    } else {
+        return R{truthy(b, salt)};
+    }
+}
+#if C06_TRUTHY
+using PredResult = int;
+using EqResult   = int;
+using CompResult = Flag;
+#else
+using PredResult = bool;
+using EqResult   = bool;
+using CompResult = bool;
+#endif
+
 // ------------------------------------------------------------------ element
 struct El {
     int key;
@@ -60,20 +97,20 @@ struct El {
         }
         return *this;
     }
-    friend bool operator==(El const& a, El const& b)
+    friend EqResult operator==(El const& a, El const& b)
     {
         vi::touch_read(&a, sizeof a, "pred-outside-range");
         vi::touch_read(&b, sizeof b, "pred-outside-range");
         vi::mon().pred_calls++;
-        return a.key == b.key;
+        return mk_result<EqResult>(a.key == b.key, a.key);
     }
     friend bool operator!=(El const& a, El const& b) { return !(a == b); }
-    friend bool operator<(El const& a, El const& b)
+    friend CompResult operator<(El const& a, El const& b)
     {
         vi::touch_read(&a, sizeof a, "pred-outside-range");
         vi::touch_read(&b, sizeof b, "pred-outside-range");
         vi::mon().pred_calls++;
-        return a.key < b.key;
+        return mk_result<CompResult>(a.key < b.key, a.key + b.key);
     }
 };
 using Seq = std::vector<El>;
@@ -116,16 +153,18 @@ inline std::uint64_t hash_seq(Seq const& s)
 struct Comp {
     int mode = 0;
     template <typename T>
-    bool operator()(T const& a, T const& b) const
+    CompResult operator()(T const& a, T const& b) const
     {
         vi::touch_read(&a, sizeof a, "pred-outside-range");
         vi::touch_read(&b, sizeof b, "pred-outside-range");
         vi::mon().pred_calls++;
+        bool r = false;
         switch (mode) {
-        case 0: return a.key < b.key;
-        case 1: return a.key > b.key;
-        default: return (a.key & 1) < (b.key & 1);
+        case 0: r = a.key < b.key; break;
+        case 1: r = a.key > b.key; break;
+        default: r = (a.key & 1) < (b.key & 1); break;
         }
+        return mk_result<CompResult>(r, a.key + 2 * b.key);
     }
 };
 inline char const* comp_name(int mode)
@@ -141,12 +180,12 @@ inline char const* comp_name(int mode)
 struct Eq {
     int mode = 0;
     template <typename T>
-    bool operator()(T const& a, T const& b) const
+    EqResult operator()(T const& a, T const& b) const
     {
         vi::touch_read(&a, sizeof a, "pred-outside-range");
         vi::touch_read(&b, sizeof b, "pred-outside-range");
         vi::mon().pred_calls++;
-        return mode == 0 ? a.key == b.key : (a.key & 1) == (b.key & 1);
+        return mk_result<EqResult>(mode == 0 ? a.key == b.key : (a.key & 1) == (b.key & 1), a.key + b.key);
     }
 };
 inline char const* eq_name(int mode)
@@ -162,15 +201,17 @@ struct Pred {
     int mode = 0;
     int arg  = 0;
     template <typename T>
-    bool operator()(T const& a) const
+    PredResult operator()(T const& a) const
     {
         vi::touch_read(&a, sizeof a, "pred-outside-range");
         vi::mon().pred_calls++;
+        bool r = false;
         switch (mode) {
-        case 0: return a.key == arg;
-        case 1: return a.key < arg;
-        default: return (a.key & 1) == arg;
+        case 0: r = a.key == arg; break;
+        case 1: r = a.key < arg; break;
+        default: r = (a.key & 1) == arg; break;
         }
+        return mk_result<PredResult>(r, a.key + (a.tag & 1));
     }
 };
 struct PredSpec {
@@ -264,6 +305,30 @@ inline unsigned char guard_value<unsigned char>(int i)
 {
     return (unsigned char)(201 + i);
 }
+template <>
+inline signed char guard_value<signed char>(int i)
+{
+    return (signed char)((i & 1) ? -1 : 1);
+}
+template <>
+inline char guard_value<char>(int i)
+{
+    return (char)((i & 1) ? 0xE9 : 'a');
+}
+template <>
+inline short guard_value<short>(int i)
+{
+    return (short)((i & 1) ? -300 : 256);
+}
+template <>
+inline float guard_value<float>(int i)
+{
+    return (i & 1) ? -0.0f : 1.5f;
+}
+inline bool same_obj(signed char a, signed char b) { return a == b; }
+inline bool same_obj(char a, char b) { return a == b; }
+inline bool same_obj(short a, short b) { return a == b; }
+inline bool same_obj(float a, float b) { return std::memcmp(&a, &b, sizeof a) == 0; }
 inline bool same_obj(El const& a, El const& b) { return a.key == b.key && a.tag == b.tag; }
 inline bool same_obj(long long a, long long b) { return a == b; }
 inline bool same_obj(int a, int b) { return a == b; }
@@ -544,6 +609,26 @@ inline unsigned char fresh_value<unsigned char>()
 {
     return 250;
 }
+template <>
+inline signed char fresh_value<signed char>()
+{
+    return 99;
+}
+template <>
+inline char fresh_value<char>()
+{
+    return 'Z';
+}
+template <>
+inline short fresh_value<short>()
+{
+    return 12345;
+}
+template <>
+inline float fresh_value<float>()
+{
+    return 1234.5f;
+}
 // minimal push_back container over a Range, for etl::back_insert_iterator
 template <typename T>
 struct PushVec {
@@ -654,6 +739,13 @@ inline bool sorted_input(Ctx const& c, Seq const& s, int mode, Seq& out)
     return true;
 }
 
+// statements that only the full (bool-result) builds instantiate: the truthy pass keeps the pointer and the weakest kinds
+#if C06_TRUTHY
+    #define C06_FULL(...)
+#else
+    #define C06_FULL(...) __VA_ARGS__
+#endif
+
 struct Test {
     char const* name;
     void (*fn)(Ctx&);
@@ -662,6 +754,9 @@ struct Test {
 #ifndef C06_BULK
     #define C06_BULK 0
 #endif
+#ifndef C06_SMALL
+    #define C06_SMALL 0
+#endif
 struct Dims {
     unsigned maxlen;
     unsigned needle;
@@ -669,6 +764,7 @@ struct Dims {
 };
 inline Dims dims(vf::Tier t)
 {
+    if (C06_TRUTHY || C06_SMALL) { return t == vf::Tier::thorough ? Dims{5, 3, 400} : Dims{4, 2, 40}; } // additional passes, smaller scope
     if (C06_BULK) { return Dims{7, 4, 1000}; }
     return t == vf::Tier::thorough ? Dims{6, 4, 4000} : Dims{5, 3, 120};
 }
